@@ -61,6 +61,20 @@ async def execute(net, hyg, plan):
         viol = []
         mon = {"ledger_at_quiescence": 0, "task_audit": 0, "server_close_returns": 0}
         cut = plan.get("cut")
+        if plan.get("late_close") is not None and not cut:
+            # the scripts ran to their end (sessions may have been dropped by the server's own timeouts meanwhile); the peers
+            # stay connected, silent and not reading, and only now the server is closed
+            await asyncio.sleep(plan["late_close"])
+            for s_ in d.sessions:
+                s_.peer.freeze()
+                if s_.peer.writer is not None:
+                    s_.peer.writer.transport.pause_reading()
+                for _r, w_ in s_.peer.data_conns:
+                    w_.transport.pause_reading()
+                s_.alive = False
+            cut = {"k": -1, "action": "server-close-late", "who": "all"}
+            d.close_task = asyncio.ensure_future(w.server.close())
+            d.cut_done = True
         action = cut["action"] if cut else None
         who = (cut.get("who", 0) if cut else 0)
         stage = step_kind(d.sessions[who if who != "all" else 0]) if cut and d.cut_done else "end"
@@ -198,6 +212,14 @@ def run_case(case):
     return out
 
 
+_LOGIN = [["connect"], ["login"]]
+LATE = {
+    "flood": _LOGIN + [["flood", 3000, 90], ["sleep", 1.0]],
+    "retr_huge_stall": _LOGIN + [["pasv"], ["data"], ["cmd", "RETR /huge.bin"], ["sleep", 1.0]],    # 150, then nobody reads the data
+    "login_idle": _LOGIN + [["cmd", "PWD"], ["sleep", 1.0]],
+}
+
+
 def gen_cases(tier, seed):
     rng = random.Random(seed * 31 + 5)
     cases = []
@@ -225,6 +247,17 @@ def gen_cases(tier, seed):
         for action in ("rst", "server-close"):
             cases.append({"kind": "enum", "action": action, "stride": 2 if tier == "quick" else 1, "phase": seed % 2,
                           "plan": {"scripts": [name], "backend_delay": [0.005], "seed": seed}})
+    # slow reply writer (server-wide write limit): replies are still queued behind the throttle when the session ends
+    for name in (["login_quit", "walk"] if tier == "quick" else ["login_quit", "walk", "stor_pasv", "mkd_rmd", "rename", "pipelined"]):
+        for action in ("rst", "fin", "server-close"):
+            cases.append({"kind": "enum", "action": action,
+                          "plan": {"scripts": [name], "seed": seed, "server_kwargs": {"write_speed_limit": 150}}})
+    # Server.close() long after the scripts ended: sessions already dropped by the server's own timeouts may have left
+    # sockets behind that the (silent, non-reading) peers still hold
+    for name in ("flood", "retr_huge_stall", "login_idle"):
+        for kw in ({"idle_timeout": 2}, {"socket_timeout": 2}, {"idle_timeout": 3, "socket_timeout": 2}, {}):
+            cases.append({"kind": "single", "plan": {"scripts": ["late:" + name], "inline": [LATE[name]], "seed": seed, "late_close": 40.0,
+                                                     "server_kwargs": kw}})
     # reply flood: the peer never reads its control connection, the replies fill every buffer on the way back; then it
     # vanishes, or stays (silent, not reading) while Server.close() is called
     for action in ("server-close-noread", "server-close", "rst", "fin", "ctrl-rst-noread"):
